@@ -39,6 +39,7 @@ import (
 //   lB            Conn.Bootstrap -> handle          lC<h>:<m>[:k<cap>|:h<h2>]  call on a handle (optionally passing a cap)
 //   lP<c>:<f>:<m> pipelined call on local call c    lH<c>:<f>  take the capability in the result of c as a new handle
 //   lR<h>         release a handle                  lX<c>      cancel local call c       lZ   Close
+//   lY<c>         release the results of finished local call c
 // application ops:
 //   aR<k>:ok|exc|cap|same    the k-th held incoming call returns (a struct / an error / a new cap / cap 0 again)
 // transport faults:
@@ -86,6 +87,7 @@ type localCall struct {
 	cancel context.CancelFunc
 	res    atomic.Value // string
 	result capnp.Struct
+	released bool // lY: the application released the results
 }
 
 // appCap is a local capability: a server.Server whose methods log their delivery.
@@ -909,6 +911,21 @@ func (lc *localCall) getRel() capnp.ReleaseFunc {
 	return lc.rel
 }
 
+// takeRel: the release function, once; afterwards the call counts as released (no pipelining on it, no handles from it)
+func (lc *localCall) takeRel() capnp.ReleaseFunc {
+	lc.amu.Lock()
+	defer lc.amu.Unlock()
+	r := lc.rel
+	lc.rel, lc.ans, lc.released = nil, nil, true
+	return r
+}
+
+func (lc *localCall) isReleased() bool {
+	lc.amu.Lock()
+	defer lc.amu.Unlock()
+	return lc.released
+}
+
 // stallChan: the channel stalled operations wait on (created on demand); nil when the op does not stall
 func (e *rpcEnv) stallChan(want bool) chan struct{} {
 	if !want {
@@ -1073,7 +1090,7 @@ func (e *rpcEnv) localOp(op string) string {
 			return "skip"
 		}
 		lc := e.lcalls[atoi(f[0])]
-		if r, _ := lc.res.Load().(string); !strings.HasPrefix(r, "ok") || !lc.result.IsValid() {
+		if r, _ := lc.res.Load().(string); !strings.HasPrefix(r, "ok") || !lc.result.IsValid() || lc.isReleased() {
 			return "skip"
 		}
 		p, err := lc.result.Ptr(uint16(atoi(f[1])))
@@ -1103,6 +1120,24 @@ func (e *rpcEnv) localOp(op string) string {
 			return "skip"
 		}
 		e.lcalls[n].cancel()
+		return "-"
+	case 'Y':
+		// the application is done with the results of a finished local call
+		n := atoi(f[0])
+		if n >= len(e.lcalls) {
+			return "skip"
+		}
+		lc := e.lcalls[n]
+		if r, _ := lc.res.Load().(string); r == "" || lc.isReleased() {
+			return "skip"
+		}
+		rel := lc.takeRel()
+		if rel == nil {
+			return "skip"
+		}
+		if !deadline(func() { rel() }) {
+			return "blocked"
+		}
 		return "-"
 	case 'Z':
 		var err error
@@ -1538,6 +1573,7 @@ func rpcOracles(trace string) []string {
 	pos := 0
 	aborted := false
 	closedByScript := false
+	connDone := false // the Conn's shutdown has completed
 	// export references computed from the wire: descriptors sent minus references the script gave back
 	expRefs := map[int]int{}
 	retRefs := map[int]map[int]int{} // answer id -> export id -> references its Return carried
@@ -1547,6 +1583,11 @@ func rpcOracles(trace string) []string {
 	// hostile and fault ops make the counts uncertain: the table comparison is only made on clean histories
 	dirty := strings.Contains(trace, "pH") || strings.Contains(trace, ";f") || strings.HasPrefix(trace, "f") ||
 		strings.Contains(trace, "pU") || strings.Contains(trace, "pJ") || strings.Contains(trace, "pD")
+	// a message the transport refused may have been a Release: the counts of later ones then cover it
+	sendFaults := false
+	for _, k := range []string{"fN", "fS", "fV"} {
+		sendFaults = sendFaults || strings.Contains(trace, ";"+k) || strings.HasPrefix(trace, k)
+	}
 	for _, step := range strings.Split(trace, ";") {
 		f := strings.SplitN(step, ":", 2)
 		if len(f) < 2 {
@@ -1566,9 +1607,13 @@ func rpcOracles(trace string) []string {
 			fmt.Sscanf(op, "pDr%d", &id)
 			delete(embargoed, id)
 		}
-		if res == "blocked" && !(len(embargoed) > 0 && (strings.HasPrefix(op, "lC") || strings.HasPrefix(op, "lP"))) {
-			// (a call on an embargoed capability waits, inside SendCall, for the peer's Disembargo: that is the protocol)
+		if res == "blocked" && !(len(embargoed) > 0 && !connDone && (strings.HasPrefix(op, "lC") || strings.HasPrefix(op, "lP"))) {
+			// (a call on an embargoed capability waits, inside SendCall, for the peer's Disembargo: that is the protocol;
+			// once the connection has shut down every embargo is lifted and nothing may wait any more)
 			note("!blocked:" + op)
+		}
+		if strings.Contains(evs, "#done") {
+			connDone = true
 		}
 		pos++
 		// what the script sent
@@ -1777,7 +1822,7 @@ func rpcOracles(trace string) []string {
 			case strings.HasPrefix(ev, ">Rel("):
 				var id, n int
 				fmt.Sscanf(ev, ">Rel(%d,%d)", &id, &n)
-				if n != impRefs[id] && !uncertain[id] && !dirty {
+				if n != impRefs[id] && !uncertain[id] && !sendFaults {
 					note(fmt.Sprintf("!release-%d-count-%d-want-%d", id, n, impRefs[id]))
 				}
 				impRefs[id] = 0
@@ -1881,10 +1926,10 @@ func mixedScript(r *lib.Rng, n int, hostile, faults bool) string {
 			}
 		case t < 37:
 			if lcalls > 0 {
-				add("lX" + strconv.Itoa(r.Intn(lcalls)))
+				add(r.PickS("lX", "lY", "lY") + strconv.Itoa(r.Intn(lcalls)))
 			}
 		case t < 38:
-			add(r.PickS("pDs0:aQ0.0", "pDr0:e0", "pDs1:a0", "pU", "pJ"))
+			add(r.PickS("pDs0:aQ0.0", "pDr0:e0", "pDr0:eX0", "pDr1:eX0", "pDs1:a0", "pU", "pJ"))
 		case t < 39:
 			if hostile {
 				add(r.PickS("pHwhich:1", "pHcalltgt:"+strconv.Itoa(nextQ), "pHcallnoparams:"+strconv.Itoa(nextQ), "pHcallyourself:"+strconv.Itoa(nextQ),
@@ -1927,6 +1972,10 @@ var rpcDirected = []string{
 	"1lB,pRQ0:boot:s1,lC0:5:k0,lQ0:0:0,pRQ0:ok:r0,fG,lH0:0,lA1:0,pC1001:e0:0,pDr0:e0", // the Return arrives while the pipelined call is being built
 	"1lB,pRQ0:boot:s1,lC0:5:k0,lP0:0:0,pRQ0:ok:r0,lH0:0,lA1:0,pF777:0",               // the peer breaks the protocol instead of looping back
 	"1lB,pRQ0:boot:s1,lC0:5:k0,lP0:0:0,pRQ0:ok:r0,lH0:0,lA1:0,fN1,lZ",                // Close (abort message cannot be created) while embargoed
+	"1lB,pRQ0:boot:s1,lC0:5:k0,lP0:0:0,pRQ0:ok:r0,lY0,pDr0:e0,lC0:0",                  // the embargoed result is released before the Disembargo comes back
+	"1lB,pRQ0:boot:s1,lC0:5:k0,lP0:0:0,pRQ0:ok:r0,lH0:0,lY0,lR1,pDr0:e0,lC0:0",        // … all of its references are
+	"1lB,pRQ0:boot:s1,lC0:5:k0,lP0:0:0,pRQ0:ok:r0,lH0:0,lY0,pDr0:e0,lC1:0,lR1",        // … or one survives and is used afterwards
+	"1pB0,lB,lC0:0,pRQ0:boot:rX0,lR0,lZ",                                             // an embargoed bootstrap capability is released, then Close lifts the embargo
 	"1lB,fH,pRQ0:boot:s1,lB,fG,pRQ0:boot:s1",                                         // a new question while the Return's Finish is still to be sent
 	"1lB,lB,pRQ0:boot:s1,lS0:0,lr0,pRQ0:boot:s1,fG,lR1",                               // a reference to an import arrives while its last handle is being released
 	"1lB,lB,pRQ0:boot:s1,lS0:0,lr0,pRQ0:boot:s1,lR1,fG",                               // … and the newer client goes away first
@@ -1940,7 +1989,7 @@ func genRPCCheck(rec *lib.Rec, r *lib.Rng, n int, hostile, faults bool) {
 		s := mixedScript(r, 4+r.Intn(20), hostile, faults)
 		boot := r.Pick(1, 1, 0)
 		if i%4 == 0 {
-			d := rpcDirected[r.Intn(len(rpcDirected))]
+			d := rpcDirected[(i/4*Shards+Shard)%len(rpcDirected)] // every directed scenario, in turn across the shards
 			boot = 1
 			if strings.HasPrefix(d, "lB") {
 				boot = r.Intn(2)
